@@ -175,6 +175,9 @@ def configs(tier):
         (dict(levy='space-time', size=(1,), cache_size=45, dt=0.5), 1),
         (dict(levy='none', size=(1,), cache_size=45, tol=0.1, t1=Fraction(1, 2)), 1),
         (dict(levy='space-time', size=(1,), cache_size=45, tol=0.1, halfway=True, t1=Fraction(1, 2)), 0),
+        # a time axis that crosses an integer (and a half-integer) with tol = 0.1: a rounding grid coarser than the tolerance
+        # (wrong number of digits) is invisible on [0, 1/2], where every time collapses to 0 (seeded change C03d)
+        (dict(levy='space-time', size=(1,), cache_size=45, tol=0.1, t0=Fraction(9, 10), t1=Fraction(8, 5)), 0),
         (dict(wrapper='reverse', levy='space-time', size=(1,), cache_size=45), 1),
         (dict(wrapper='path', levy='none', size=(1,)), 1),
         (dict(wrapper='tree', levy='none', size=(1,), tol=0.1, t1=Fraction(1, 2)), 0),
